@@ -59,6 +59,43 @@ CHECKS = {
         title="Unbounded MPMC queues are linearizable FIFO queues",
         technique="deterministic simulation (seeded schedules; weak-CAS, stall, thread-churn, early-timeout, spurious-wake-up, eager-reclamation faults) + Wing-Gong linearizability check of each recorded history against a sequential FIFO model",
     ),
+    "C07": dict(
+        subjects=[(n, 5000, 150000) for n in ["queue.Vyukov_dyn", "queue.Vyukov_dyn_ic_seqcst", "queue.Vyukov_static4", "queue.Vyukov_single_consumer", "queue.iVyukov"]],
+        classes=["not-linearizable"],
+        title="Bounded Vyukov queue is a linearizable bounded FIFO",
+        technique="deterministic simulation (seeded schedules; weak-CAS, stall, thread-churn, early-timeout, spurious-wake-up, eager-reclamation faults) + Wing-Gong linearizability check of each recorded history against a bounded FIFO model of the reported capacity (wrap-around programs)",
+    ),
+    "C08": dict(
+        subjects=[(n, 4000, 100000) for n in ["segq.SegmentedQueue_HP", "segq.SegmentedQueue_DHP", "segq.SegmentedQueue_HP_randperm", "segq.iSegmentedQueue_HP", "segq.iSegmentedQueue_DHP_randperm"]],
+        classes=["enqueue-failed", "duplicate-dequeue", "invented-item", "lost-item", "quasi-fifo-bound", "false-empty", "double-dispose"],
+        expect_probes=["segq_segments_created", "segq_segments_deleted", "F10_eager_reclaim"],
+        title="SegmentedQueue conserves items and bounds reordering by the quasi factor",
+        technique="deterministic simulation (seeded schedules and faults) + conservation / quasi-FIFO-bound / emptiness interval oracles over the step-stamped history",
+    ),
+    "C09": dict(
+        subjects=[(n, 2500, 50000) for n in ["stack.Treiber_HP", "stack.Treiber_DHP", "stack.Treiber_HP_elim1", "stack.Treiber_HP_elim2", "stack.Treiber_DHP_elim4", "stack.Treiber_HP_elim_dyn",
+                  "stack.Treiber_DHP_elim_dyn", "stack.iTreiber_HP", "stack.iTreiber_DHP", "stack.iTreiber_HP_elim", "stack.iTreiber_DHP_elim", "stack.FCStack_deque", "stack.FCStack_vector_elim",
+                  "stack.FCStack_list_elim_smmc", "stack.FCStack_mmmc", "stack.iFCStack_list", "stack.iFCStack_list_elim"]],
+        classes=["not-linearizable"],
+        expect_probes=["elim_active_collision", "elim_passive_collision", "fc_collided", "F10_eager_reclaim"],
+        title="Stacks are linearizable LIFO stacks, with or without elimination",
+        technique="deterministic simulation (seeded schedules; weak-CAS, stall, thread-churn, early-timeout, spurious-wake-up, eager-reclamation faults) + Wing-Gong linearizability check of each recorded history against a sequential LIFO model (elimination collisions provoked through simulated back-off sleeps)",
+    ),
+    "C10": dict(
+        subjects=[(n, 4000, 100000) for n in ["deque.FCDeque_std", "deque.FCDeque_std_elim", "deque.FCDeque_boost_elim_smsc", "deque.FCDeque_boost_mmmc", "deque.FCDeque_std_elim_nowait"]],
+        classes=["not-linearizable"],
+        expect_probes=["fc_collided", "fc_combining_passes", "fc_pubrecords_deleted"],
+        title="FCDeque is a linearizable double-ended queue",
+        technique="deterministic simulation (seeded schedules; weak-CAS, stall, thread-churn, early-timeout, spurious-wake-up, eager-reclamation faults) + Wing-Gong linearizability check of each recorded history against a sequential deque model",
+    ),
+    "C11": dict(
+        subjects=[(n, 4000, 100000) for n in ["pq.FCPriorityQueue_vector", "pq.FCPriorityQueue_deque_smsc", "pq.FCPriorityQueue_stable_vector_mmmc", "pq.MSPriorityQueue_spin", "pq.MSPriorityQueue_mutex",
+                  "pq.MSPriorityQueue_static8", "pq.iMSPriorityQueue"]],
+        classes=["not-linearizable"],
+        expect_probes=["mspq_push_failed", "mspq_push_heapify_swaps", "fc_combining_passes"],
+        title="Priority queues conserve items and honour priority order",
+        technique="deterministic simulation (seeded schedules; weak-CAS, stall, thread-churn, early-timeout, spurious-wake-up, eager-reclamation faults) + Wing-Gong linearizability check of each recorded history against a max-priority multiset (FCPriorityQueue; MSPriorityQueue in phased programs with a simulator barrier) or a bag with capacity (MSPriorityQueue mixed programs)",
+    ),
 }
 
 NOT_APPLICABLE = [
